@@ -53,7 +53,7 @@ CLAIMS = {
              "pairing of a key with its value is evaluated abstractly for every value mode x {nothing, value, key} "
              "following (required without value throws, optional never takes a glued rest, 'command' ends the "
              "evaluation). "
-             "Requires/excludes entries carry the kind they were defined with (ConstraintRequires / ConstraintExcludes pass the kind they are named after); a handler constraint is registered only after validated(); a tuple value is converted to the type of the element it belongs to (element index = member counter of the values stored so far); the disjoint constraint is decided for values in any order (an adapter of an unsorted container never reaches a merge-shaped helper without an is_sorted() guard). Path rules quantify over all command lines because they quantify over all paths.",
+             "Requires/excludes entries carry the kind they were defined with (ConstraintRequires / ConstraintExcludes pass the kind they are named after); a handler constraint is registered only after validated(); a tuple value is converted to the type of the element it belongs to (element index = member counter of the values stored so far); the disjoint constraint is decided for values in any order (an adapter of an unsorted container never reaches a merge-shaped helper without an is_sorted() guard); argument and handler constraints are activated on every use of an argument; handler constraint lists hold the complete keys of the arguments they name. Path rules quantify over all command lines because they quantify over all paths.",
         note="trusts clang AST/CFG and the extractor; exceptions are the only failure channel; value conversion "
              "itself (boost::lexical_cast) and regex/file-system check semantics are not decided",
         technique="static analysis: CFG must-pass-through / dominance / sibling agreement over resolved calls"),
@@ -230,7 +230,7 @@ CLAIMS = {
              "shapes of Filters::pass (conjunction), Logging::log, Log::message, ILogDest::handleMessage "
              "(exactly-once delivery under the filters), completeness/distinctness of the class and level name "
              "tables, single-writer and no-reset rules for the duplicate policy; the class-list filter sets exactly the bit "
-             "of every class it names and pass() returns exactly the bit of the message's class; a level filter whose verdict does not depend on the message level / the configured level is a violation; the macro pre-check (discard_by_level) asks Filters::processLevel of the log or a sound refinement (no discard from inside the loop over the destinations); every filter setter reaches the duplicate policy (checkSetFilter) on every normal path.",
+             "of every class it names and pass() returns exactly the bit of the message's class; a level filter whose verdict does not depend on the message level / the configured level is a violation; the macro pre-check (discard_by_level) asks Filters::processLevel of the log or a sound refinement (no discard from inside the loop over the destinations); removing a destination removes exactly the named one (single-element erase or erase-remove idiom); every filter setter reaches the duplicate policy (checkSetFilter) on every normal path.",
         note="trusts clang AST/CFG; the full (level x class x filter-history) table as executed is not decided",
         also=("engine B (boolshape.py)", "engine E (effects.py)"),
         technique="static analysis: enum-capacity facts, truth tables over orderings, CFG loop-shape rules"),
@@ -284,7 +284,7 @@ CLAIMS = {
              "object must re-target its description printer - this last rule reports an open, recorded finding on "
              "Handler::setUsageParams, see known_findings.json); every call of the visibility predicate passes the current "
              "settings in their places (column-width pass == printing pass); default value, check, constraint and hidden "
-             "mark each depend on their own property only; every display setting is switched by the argument / start flag named after it (UsageParams binders and setters touch the member their reader returns, shortOnly/longOnly values, Handler forwarders call the same-named UsageParams function, the hfUsage*/hfArg* start flags guard exactly their function); isMandatory/isHidden/isDeprecated report one stored flag that every setter of the property sets; the data behind the usage extras (checks, constraints, flags) is modified by the definition-time API only; each pass prints its own caption member and setCaption() sets them in the documented order; every argument class that switches print-default on provides defaultValue() (the base implementation throws); the description text goes through the "
+             "mark each depend on their own property only; every display setting is switched by the argument / start flag named after it (UsageParams binders and setters touch the member their reader returns, shortOnly/longOnly values, Handler forwarders call the same-named UsageParams function, the hfUsage*/hfArg* start flags guard exactly their function); isMandatory/isHidden/isDeprecated report one stored flag that every setter of the property sets; the data behind the usage extras (checks, constraints, flags) is modified by the definition-time API only; each pass prints its own caption member and setCaption() sets them in the documented order; every argument class that switches print-default on provides defaultValue() (the base implementation throws); every description block is as wide as the configured line length; the key-specification parser (shared with C05-R7); the description text goes through the "
              "word loop of TextBlock, whose no-word-lost rule (C17-R1) is run here as well. Layout is not decided.",
         note="trusts clang AST/CFG; TypedArgBase property getters report the configured properties",
         also=("engine A (cfg.py)",),
@@ -370,7 +370,7 @@ CLAIMS = {
              "ManagedThread constructor instantiation: decides the structural necessary conditions (every access to "
              "the shared pointer under the static mutex, one null-tested construction site, constant-initialised static members, flag initialised before "
              "the thread starts, atomic flag set/cleared around the user function, isActive() reports that flag and consults "
-             "nothing else, the destructor joins on every path on which the handle is joinable - whatever the flag says - and never detaches) for all schedules at once; it does "
+             "nothing else - writing nothing and reading exactly one member -, the destructor joins on every path on which the handle is joinable - whatever the flag says - and never detaches) for all schedules at once; it does "
              "not execute any interleaving.",
         note="trusts clang's AST/CFG, the C++ rules for base/member initialisation order and the semantics of "
              "std::mutex/lock_guard/atomic",
